@@ -123,13 +123,26 @@ func (hm *HashMap) Query(q *query.Query, local, internal bool) (*iterator.Iterat
 }
 
 func (hm *HashMap) queryExecutor(queryIter *iterator.Iterator, q *query.Query, local, internal bool) {
+	// Take a snapshot of the entries instead of holding the database lock while
+	// locking every record: writers lock the (shared) record first and the
+	// database second, so holding the database lock here would deadlock with
+	// them.
+	type entry struct {
+		key    string
+		record record.Record
+	}
 	hm.dbLock.RLock()
-	defer hm.dbLock.RUnlock()
+	entries := make([]entry, 0, len(hm.db))
+	for key, record := range hm.db {
+		entries = append(entries, entry{key, record})
+	}
+	hm.dbLock.RUnlock()
 
 	var err error
 
 mapLoop:
-	for key, record := range hm.db {
+	for _, e := range entries {
+		key, record := e.key, e.record
 		record.Lock()
 		if !q.MatchesKey(key) ||
 			!q.MatchesRecord(record) ||
